@@ -422,7 +422,7 @@ func truncBody(t *testing.T) {
 	bases := libraryFiles(e.Scratch)
 	cf := corpusFiles()
 	// corpus subset: seed-rotated, more files in the thorough tier
-	maxCorpus := vt.N(10, 250)
+	maxCorpus := vt.N(10, 100)
 	if len(cf) > maxCorpus {
 		off := int(vt.ShardSeed("trunc-corpus") % uint64(len(cf)))
 		rot := append(append([]baseFile{}, cf[off:]...), cf[:off]...)
@@ -830,7 +830,11 @@ func runHistoryWithFault(h []hist.Op, op string, k int) (calls int, firedIn stri
 			case st.Broken != "" && strings.Contains(st.Broken, "panic"):
 				return calls, firedIn, "panic: " + st.Broken, nil
 			case st.Err != "":
-				return calls, firedIn, "error", nil
+				// the call reported the failure. With working I/O from here on the writer is closed and the file is read: what
+				// it still lists must not be different data (see afterError)
+				writer.VerifFaultHook = nil
+				_ = ex.Close()
+				return calls, firedIn, "error", obs.Read(file, obs.Options{})
 			}
 			outcome = "nil" // the call claims success: the history goes on and the final content is compared
 		}
@@ -871,6 +875,10 @@ func runWriteFault(c WriteFaultCase) vt.Verdict {
 		return vt.Skipped("fault index beyond the calls of the history")
 	case strings.HasPrefix(outcome, "panic"):
 		return vt.Bad("history %d: %s #%d failing made %s panic: %s", c.History, c.Op, c.K, where, outcome)
+	case outcome == "error" && final != nil:
+		if p := afterError(cleanObs(c.History, hs[c.History]), final, hs[c.History], where); p != "" {
+			return vt.Bad("history %d: %s #%d failed during %s, the call returned an error, and the file read afterwards holds different data: %s", c.History, c.Op, c.K, where, clip(p))
+		}
 	case outcome == "nil":
 		// the API call returned nil although one of its I/O calls failed: then it must have achieved exactly what it
 		// achieves with working I/O - the final content equals the fault-free run's
@@ -879,6 +887,101 @@ func runWriteFault(c WriteFaultCase) vt.Verdict {
 		}
 	}
 	return vt.Pass()
+}
+
+// afterError judges the file left behind by a call that reported an I/O failure. The failed call may have taken effect, not
+// taken effect, or left its own target half-written; but nothing the reader lists afterwards may be DIFFERENT data: every
+// listed member exists under that name and kind in the fault-free run, every attribute value and every dataset that the
+// history writes exactly once (other than the failed call's own target) reads as in the fault-free run, as never written
+// (zeros), or with an error.
+func afterError(clean, got *obs.File, h []hist.Op, where string) string {
+	if got.OpenErr != "" {
+		return ""
+	}
+	for _, p := range got.Panics {
+		return "panic: " + p
+	}
+	target := ""
+	if f := strings.Fields(where); len(f) >= 4 {
+		target = f[3] // "op <i> <kind> <path>"
+	}
+	writes := map[string]int{}
+	for _, o := range h {
+		if o.K == "write" || o.K == "resize" {
+			writes[o.Path]++
+		}
+	}
+	kinds := func(f *obs.File, p string) map[string]string {
+		m := map[string]string{}
+		if g := f.Groups[p]; g != nil {
+			for _, c := range g.Children {
+				m[c.Name] = c.Kind
+			}
+		}
+		return m
+	}
+	for p := range got.Groups {
+		cg := clean.Groups[p]
+		if cg == nil {
+			return fmt.Sprintf("group %s is listed, the fault-free run has no such group", p)
+		}
+		want := kinds(clean, p)
+		for n, k := range kinds(got, p) {
+			if wk, ok := want[n]; !ok {
+				return fmt.Sprintf("group %s lists a member %q (%s) that the fault-free run never has", p, n, k)
+			} else if wk != k {
+				return fmt.Sprintf("group %s lists member %q as a %s, it is a %s", p, n, k, wk)
+			}
+		}
+		if p != target && got.Groups[p].AttrsErr == "" {
+			if ps := attrSubset(p, cg.Attrs, got.Groups[p].Attrs); ps != "" {
+				return ps
+			}
+		}
+	}
+	for p, d := range got.Datasets {
+		cd := clean.Datasets[p]
+		if cd == nil {
+			return fmt.Sprintf("dataset %s is listed, the fault-free run has no such dataset", p)
+		}
+		if p == target {
+			continue
+		}
+		if d.AttrsErr == "" {
+			if ps := attrSubset(p, cd.Attrs, d.Attrs); ps != "" {
+				return ps
+			}
+		}
+		if writes[p] == 1 && d.ReadErr == "" && cd.ReadErr == "" && !reflect.DeepEqual(d.Read, cd.Read) {
+			zero := true
+			for _, v := range d.Read {
+				if v != 0 {
+					zero = false
+				}
+			}
+			if !zero || len(d.Read) != len(cd.Read) {
+				return fmt.Sprintf("dataset %s reads values that are neither the written ones nor the never-written state", p)
+			}
+		}
+	}
+	return ""
+}
+
+func attrSubset(path string, clean, got []obs.Attr) string {
+	m := map[string]obs.Attr{}
+	for _, a := range clean {
+		m[a.Name] = a
+	}
+	for _, a := range got {
+		c, ok := m[a.Name]
+		if !ok {
+			return fmt.Sprintf("%s lists an attribute %q that the fault-free run never has", path, a.Name)
+		}
+		if a.Data != c.Data || a.Class != c.Class || a.Size != c.Size {
+			return fmt.Sprintf("%s: attribute %q holds a value that was never written", path, a.Name)
+		}
+	}
+	return ""
 }
 
 func clip(s string) string {
